@@ -423,6 +423,9 @@ impl Prop for C13 {
 			]
 		};
 		let kind = *run.rng.pick(&kinds);
+		if kind.starts_with("slow_") {
+			run.cov.fault("slow_request_body");
+		}
 		let method = *run.rng.pick(METHODS);
 		// close_wallet through an authenticated call only rarely (it ends most of the run)
 		let method = if method == "close_wallet" && kind == "call" && !run.rng.chance(1, 6) {
